@@ -11,7 +11,7 @@ REAL = "decided over the reals (IEEE rounding/overflow outside the claim: floati
 
 CHECKS = {
  "C01": dict(tech="symbolic execution of real code on a symbolic scalar + SMT (QF_NRA)", engines=[R],
-             text="For every explored shape/frame and EVERY value of singular values, weights, observations, threshold: the matrix handed to the SVD is W*Phi, the reported coefficients equal the truncated closed form V_r S_r^-1 U_r^T W Y, for EVERY set of retained singular values stated as an explicit premise (sigma_j > eps kept, sigma_j <= eps counts as zero; the specification never reads the implementation's rank decision), satisfy the normal equations in the full-rank case, are minimum-norm and optimal in the retained subspace in every truncated case; the SVD is called with a constant convergence tolerance <= 1e-9, depend linearly on Y, and every divisor is non-zero on every path. Bounded model checking: all paths of the real set_params/build inside the shape bound.",
+             text="For every explored shape/frame and EVERY value of singular values, weights, observations, threshold: the matrix handed to the SVD is W*Phi, the reported coefficients equal the truncated closed form V_r S_r^-1 U_r^T W Y, for EVERY set of retained singular values stated as an explicit premise (sigma_j > eps kept, sigma_j <= eps counts as zero; the specification never reads the implementation's rank decision), satisfy the normal equations in the full-rank case, are minimum-norm and optimal in the retained subspace in every truncated case; the SVD is called with a constant convergence tolerance <= 1e-9, depend linearly on Y, and every divisor is non-zero on every path. Bounded model checking: all paths of the real set_params/build inside the shape bound (N <= 4, M <= 3, S <= 3, including more right-hand sides than observations).",
              note=REAL),
  "C02": dict(tech="symbolic execution of real code on a symbolic scalar + SMT (QF_NRA)", engines=[R, K],
              text="residuals() == column-stacked W*Y - (W*Phi)*C, weighted_data() == W*Y, best_fit() == Phi*C in the shape of the observations, params()/nonlinear_parameters() == the alpha last applied, for all values inside the shape bound and after one- and two-step update histories.", note=REAL),
